@@ -169,10 +169,95 @@ func Strip(v ssa.Value) ssa.Value {
 			v = x.X
 		case *ssa.MakeInterface:
 			v = x.X
+		case *ssa.UnOp:
+			// a field of a purely local struct variable / literal that is stored exactly once, before this load: the load is
+			// that value (parameter objects and result structs that a refactoring routes values through)
+			if sv := localFieldLoad(x); sv != nil {
+				v = sv
+				continue
+			}
+			return v
+		case *ssa.Field:
+			if ld, ok := x.X.(*ssa.UnOp); ok && ld.Op == token.MUL {
+				if al, ok := ld.X.(*ssa.Alloc); ok {
+					if sv := singleLocalFieldStore(al, x.Field, ld); sv != nil {
+						v = sv
+						continue
+					}
+				}
+			}
+			return v
 		default:
 			return v
 		}
 	}
+}
+
+func localFieldLoad(x *ssa.UnOp) ssa.Value {
+	if x.Op != token.MUL {
+		return nil
+	}
+	fa, ok := x.X.(*ssa.FieldAddr)
+	if !ok {
+		return nil
+	}
+	base := fa.X
+	for {
+		switch b := base.(type) {
+		case *ssa.ChangeType:
+			base = b.X
+			continue
+		case *ssa.Convert:
+			base = b.X
+			continue
+		}
+		break
+	}
+	al, ok := base.(*ssa.Alloc)
+	if !ok {
+		return nil
+	}
+	return singleLocalFieldStore(al, fa.Field, x)
+}
+
+// singleLocalFieldStore: al never leaves its function (localFieldStores), field idx is stored exactly once, and that store
+// is executed before use.
+func singleLocalFieldStore(al *ssa.Alloc, idx int, use ssa.Instruction) ssa.Value {
+	vals, ok := localFieldStores(al, idx)
+	if !ok || len(vals) != 1 {
+		return nil
+	}
+	// locate the store instruction to check it precedes the use
+	for _, r := range Referrers(al) {
+		if st, ok := r.(*ssa.Store); ok && st.Addr == ssa.Value(al) {
+			// whole-struct copy from a literal: the copy must precede the use (the literal's stores precede the copy)
+			if (st.Block() == use.Block() && IndexInBlock(st) < IndexInBlock(use)) || (st.Block() != use.Block() && st.Block().Dominates(use.Block())) {
+				return vals[0]
+			}
+			return nil
+		}
+		fa, ok := r.(*ssa.FieldAddr)
+		if !ok || fa.Field != idx {
+			continue
+		}
+		for _, r2 := range Referrers(fa) {
+			st, ok := r2.(*ssa.Store)
+			if !ok || st.Addr != ssa.Value(fa) {
+				continue
+			}
+			if st.Block() == use.Block() {
+				if IndexInBlock(st) < IndexInBlock(use) {
+					return vals[0]
+				}
+				return nil
+			}
+			if st.Block().Dominates(use.Block()) {
+				return vals[0]
+			}
+			return nil
+		}
+	}
+	return nil
 }
 
 // ConstInt returns the integer value of a constant SSA value.
